@@ -1,4 +1,5 @@
 import Jrpc.Base
+import Jrpc.Backoff
 /-
   Jrpc.Redial — the reconnect side of one WebSocket client (websocket.go `tryReconnect`, client.go
   `websocketClient` / `handleRpcCall`):
@@ -15,9 +16,9 @@ import Jrpc.Base
 namespace Jrpc.Redial
 
 structure Cfg where
-  reconnect : Bool     -- `connFactory != nil`
-  minDelay  : Nat      -- lower bound of `reconnectBackoff.next` (time unit of the trace)
-  deriving Repr, DecidableEq, Inhabited
+  reconnect : Bool          -- `connFactory != nil`
+  minDelay  : Nat           -- lower bound of `reconnectBackoff.next` over all attempts (time unit of the trace)
+  lo        : Nat → Nat     -- lower bound of `reconnectBackoff.next n` for attempt n (`Backoff.lo`: it grows by 1.5 per attempt up to the maximum)
 
 inductive Pc where
   | up                          -- connected; reader running
@@ -38,6 +39,10 @@ inductive Ev where
   | abort (t : Nat)             -- rc.abort
   | exit  (t : Nat)             -- main.exit.begin
   deriving Repr, DecidableEq, Inhabited
+
+/-- The configuration of a client with backoff `b` (in the trace's time unit). -/
+def Cfg.ofBackoff (reconnect : Bool) (b : Backoff) : Cfg :=
+  { reconnect := reconnect, minDelay := b.minDelay, lo := b.lo }
 
 def Ev.time : Ev → Nat
   | .loss t | .spawn t | .sleep _ t | .dial _ t | .swap t | .abort t | .exit t => t
@@ -67,8 +72,8 @@ def step? (c : Cfg) (s : St) (e : Ev) : Option St :=
   | .dial n t =>
     match s.pc with
     | .sleeping m since =>
-      -- the sleep lasted at least the backoff's lower bound
-      if n = m && since + c.minDelay ≤ t then some { s with pc := .dialing n, dials := (s.mark, t) :: s.dials, mark := t }
+      -- the sleep lasted at least the backoff's lower bound for this attempt
+      if n = m && since + c.lo n ≤ t then some { s with pc := .dialing n, dials := (s.mark, t) :: s.dials, mark := t }
       else none
     | _ => none
   | .swap _ =>
